@@ -76,6 +76,10 @@ type bodyStream struct {
 	chunkLeft       int
 	// whether the chunk has reached the EOF
 	chunkEOF bool
+
+	// readErr is the first error other than io.EOF that Read returned: the position in the
+	// stream is unknown after it, so the rest cannot be skipped to reach the next message.
+	readErr error
 }
 
 func ReadBodyWithStreaming(zr network.Reader, contentLength, maxBodySize int, dst []byte) (b []byte, err error) {
@@ -123,6 +127,14 @@ func AcquireBodyStream(b *bytebufferpool.ByteBuffer, r network.Reader, t *protoc
 }
 
 func (rs *bodyStream) Read(p []byte) (int, error) {
+	n, err := rs.read(p)
+	if err != nil && err != io.EOF && rs.readErr == nil {
+		rs.readErr = err
+	}
+	return n, err
+}
+
+func (rs *bodyStream) read(p []byte) (int, error) {
 	defer func() {
 		if rs.reader != nil {
 			rs.reader.Release() //nolint:errcheck
@@ -240,6 +252,11 @@ func (rs *bodyStream) skipRest() error {
 	// the bodyStream has been skip rest
 	if rs.prefetchedBytes == nil {
 		return nil
+	}
+
+	// a failed Read leaves the stream at an unknown position
+	if rs.readErr != nil {
+		return rs.readErr
 	}
 
 	// the request is chunked encoding
@@ -377,4 +394,5 @@ func (rs *bodyStream) reset() {
 	rs.chunkEOF = false
 	rs.chunkLeft = 0
 	rs.contentLength = 0
+	rs.readErr = nil
 }
